@@ -811,6 +811,25 @@ class Extractor:
                 if j < len(text) and text[j] == ';':
                     edits.append((st, j + 1 - st, '', False))
                     self.log.rw('R14', rel, line0 + text.count('\n', 0, st), 'const _: () = { .. %d bytes of compile-time assertions .. };' % (j - st), '(dropped)')
+        # rule R16: `return (move || { B })();` -> `return { B };`  - an immediately invoked closure whose result is returned at once:
+        # an inner `return e` leaves the closure with e, which the outer `return` hands on, so it may leave the function directly.
+        # (Verus does not support closures capturing a mutable reference; the codec derive emits this shape in enum decoders.)
+        if has_body and not spec.external:
+            n16 = 0
+            for m16 in re.finditer(r'\breturn\s*\(\s*move\s*\|\|\s*(?=\{)', text[body_open:]):
+                st = body_open + m16.start()
+                ob = body_open + m16.end()
+                if not mask[ob]:
+                    continue
+                cb = match_close(text, mask, ob)
+                mt = re.match(r'\s*\)\s*\(\s*\)\s*;', text[cb + 1:])
+                if not mt:
+                    continue
+                edits.append((st, ob - st, 'return ', False))
+                edits.append((cb + 1, mt.end(), ';', False))
+                n16 += 1
+            if n16:
+                self.log.rw('R16', rel, line0, 'return (move || { B })();  (%d occurrences)' % n16, 'return { B };')
         if kind == 'twinfn' and spec.twin_as:
             m = re.search(r'\bfn\s+' + re.escape(spec.name) + r'\b', text)
             edits.append((m.start(), m.end() - m.start(), 'fn ' + spec.twin_as, False))
